@@ -403,21 +403,25 @@ class Parser:
                 self.pop_token()
                 return None
 
+            # The stack is shared with whatever contains this element, so only
+            # the items that are pushed while processing this subcircuit
+            # belong to it.
+            num_items: int = self.get_stack_length()
+
             while type(self.peek(0)) not in [Comma, Colon, RCurly]:
                 if self.peek(0) is None:
                     raise InsufficientTokens()
-                self.main_loop()
+                self.expect(Identifier)
+                self.element()
 
             elements: List[Element] = []
 
-            while not self.is_stack_empty():
+            while self.get_stack_length() > num_items:
                 con = self.pop_stack()
                 if not isinstance(con, Element):
                     raise TypeError(f"Expected an Element instead of {con=}")
 
                 elements.insert(0, con)
-
-            elements.reverse()
 
             return Series(elements)
 
